@@ -75,7 +75,8 @@ def generate(rng, tier, cls):
                                            p_main_none=0.08)}
 
     return {'actors': [prod], 'schedule': [], 'faults': [],
-            'via': rng.choice(['from_stream', 'from_stream', 'from_bytes']),
+            'via': rng.choice(['from_stream', 'from_stream', 'from_bytes',
+                               'subclass']),
             'reuse': rng.chance(0.12),
             'block_size': rng.choice([None, None, 1, 17, 97])}
 
@@ -112,6 +113,8 @@ def load(L, w, data, via, bs, reuse=False):
 
     if via == 'from_bytes':
         return L.DiffX.from_bytes(data), None
+    elif via == 'subclass':
+        return type('DiffX', (L.DiffX,), {}).from_bytes(data), None
 
     h = SimReadHandle(w, data, 'editor')
 
